@@ -92,6 +92,20 @@ def _rereplicate(ctx, repo):
     ctx.check(ok, "R-REREPLICATE", "every computation that had a replica on the departed agent is collected and the agent removed from its hosts", lost, loops[0] if loops else lost.node, "")
     rep = [c for c in ast.walk(lost.node) if isinstance(c, ast.Call) and is_self_call(c, "replicate")]
     ctx.check(len(rep) >= 1, "R-REREPLICATE", "lost replicas are re-created through replicate()", lost, rep[0] if rep else lost.node, "")
+    # a candidate that was not selected drops its replica completely (so that it can hold one again) and un-publishes it
+    rmr = cls.methods["remove_replica"]
+    ctx.touch(rmr)
+    rtx = [norm(s_) for s_ in rmr.node.body]
+    p0 = rmr.params[1]
+    ctx.check(f"self.replicas.pop({p0})" in rtx and f"self._hosted_replicas.pop({p0})" in rtx and f"self.discovery.unregister_replica({p0}, self.agt_name)" in rtx,
+              "R-REREPLICATE", "remove_replica forgets the definition, the (owner, footprint) record and the publication", rmr, rmr.node,
+              "a record left in _hosted_replicas makes _can_host refuse that computation for ever: after a repair the computation is re-replicated on fewer agents than k and "
+              "the next departure can lose it")
+    ur = repo.func("pydcop.infrastructure.discovery", "Discovery.unregister_replica")
+    ctx.touch(ur)
+    g0 = [st for st in ur.node.body if isinstance(st, ast.If) and any(isinstance(y, ast.Return) for y in st.body)]
+    ctx.check(len(g0) >= 1 and norm(g0[0].test) == f"{ur.params[1]} not in self._replicas_data", "R-REREPLICATE", "Discovery.unregister_replica only gives up when the replica table does not know the computation", ur,
+              g0[0] if g0 else ur.node, "during a repair the candidates forget the orphan as a *computation*; their replica must still be un-published when they drop it")
     alr = cls.methods["_answer_lost_requests"]
     ctx.touch(alr)
     comp = [x for x in ast.walk(alr.node) if isinstance(x, ast.ListComp) and norm(x.generators[0].iter) == "self._pending_requests"]
@@ -592,6 +606,8 @@ _OA = "pydcop/infrastructure/orchestratedagents.py"
 _R = "pydcop/reparation/removal.py"
 _U = "pydcop/replication/dist_ucs_hostingcosts.py"
 VARIANTS = [
+    ("remove_replica_keeps_hosted_record", _U, "        self.replicas.pop(computation)\n        self._hosted_replicas.pop(computation)\n", "        self.replicas.pop(computation)\n", "break", "R-REREPLICATE"),
+    ("unregister_replica_guarded_by_computation_table", "pydcop/infrastructure/discovery.py", "        if replica not in self._replicas_data:\n            self.logger.info('Attempting to unregister an unknown '", "        if replica not in self._computations_data:\n            self.logger.info('Attempting to unregister an unknown '", "break", "R-REREPLICATE"),
     ("removed_agent_probed_by_name", _U, "            if len(without) != len(self._replication_computations_cache):\n", "            if agent in self._replication_computations_cache:\n", "break", "R-REREPLICATE"),
     ("lost_replicas_not_recreated", _U, "                self._answer_lost_requests(agent)\n\n                # Re-launch replication for the computation(s) that have lost a\n                # replica.\n                self._replicate_on_agent_lost(agent)\n", "                self._answer_lost_requests(agent)\n", "break", "R-REREPLICATE"),
     ("lost_requests_keyed_by_computation", _U, "            for rq_agt, rq_comp in self._pending_requests\n            if rq_agt == agent\n", "            for rq_agt, rq_comp in self._pending_requests\n            if rq_comp == agent\n", "break", "R-REREPLICATE"),
